@@ -20,7 +20,7 @@ func init() {
 			"optional SubscribeOn(handler); 1..3 threads run histories over Publish(unique v) / Subscribe / Unsubscribe; oracle per (Publish, subscription): exactly one delivery when registered before the call and not unsubscribed " +
 			"before it returned, none when unsubscribed before it began, never two; subscription order without handler; handler thread identity; Map delivers fn(v) once; " +
 			"non-trivial = a (un)subscribe overlapped a Publish (re-entrant or concurrent); distinct = distinct context-switch signature" +
-			" Flavours: publisher tree (Map, Map of Map, run-time Map), values published into derived publishers, (un)subscriptions on derived publishers incl. drain-and-resubscribe, derived publishers with a SubscribeOn handler of their own (another / the origin's), handler closed right after the last publish, placeholder subscriptions, callbacks bound through the returned handle after another subscriber came and went.",
+			" Flavours: publisher tree (Map, Map of Map, run-time Map), values published into derived publishers, (un)subscriptions on derived publishers incl. drain-and-resubscribe, derived publishers with a SubscribeOn handler of their own (another / the origin's), handler closed right after the last publish, placeholder subscriptions, callbacks bound through the returned handle after another subscriber came and went, an unsubscribed Subscription value subscribed again.",
 		Real: []string{"fpgo.PublisherDef (Subscribe, Unsubscribe, Publish, Map, SubscribeOn)", "fpgo.HandlerDef"},
 		Stub: []string{"goroutine scheduler", "subscription callbacks"},
 	})
@@ -67,7 +67,9 @@ type c10Sub struct {
 	initial     bool
 	level       int
 	placeholder bool
-	lateBind    bool // registered without a callback; the callback is set through the returned handle before anything is published
+	resubCopy   bool    // subscribed, unsubscribed, and the Subscription value (*handle) subscribed again: the new registration is live
+	alias       *c10Sub // deliveries through this subscription's callback belong to that registration
+	lateBind    bool    // registered without a callback; the callback is set through the returned handle before anything is published
 	node        *c10Node
 	pub         *fpgo.PublisherDef[int] // the publisher the subscription was made on
 }
@@ -107,7 +109,7 @@ func genC10(t *simrt.Tape, tier string) Scenario {
 	sc.Map = t.Bool(1, 3)
 	sc.NSubs = 3 + t.Choose(4)
 	for i := 0; i < sc.NSubs; i++ {
-		sc.Actions = append(sc.Actions, []string{"none", "unsubSelf", "unsubOther", "subNew", "publishNested", "placeholder", "lateBind"}[t.ChooseW([]int{4, 2, 2, 1, 1, 1, 1})])
+		sc.Actions = append(sc.Actions, []string{"none", "unsubSelf", "unsubOther", "subNew", "publishNested", "placeholder", "lateBind", "resubCopy"}[t.ChooseW([]int{4, 2, 2, 1, 1, 1, 1, 1})])
 		sc.Targets = append(sc.Targets, t.Choose(sc.NSubs))
 	}
 	if sc.Map {
@@ -238,6 +240,11 @@ func (sc *c10Scenario) Run(s *simrt.Sim) {
 			cs.placeholder = true
 			return cs
 		}
+		if action == "resubCopy" {
+			cs.resubCopy = true
+			cs.action = "none"
+			action = "none"
+		}
 		if action == "lateBind" {
 			cs.subOp = h.Do(name, "Subscribe", cs.id, func() (interface{}, error) {
 				cs.ptr = pub.Subscribe(fpgo.Subscription[int]{})
@@ -249,7 +256,11 @@ func (sc *c10Scenario) Run(s *simrt.Sim) {
 		}
 		cs.subOp = h.Do(name, "Subscribe", cs.id, func() (interface{}, error) {
 			cs.ptr = pub.Subscribe(fpgo.Subscription[int]{OnNext: func(v int) {
-				sc.deliv = append(sc.deliv, c10Deliv{sub: cs.id, val: v, at: s.Stamp(), thread: s.Self().ID})
+				who := cs
+				if cs.alias != nil {
+					who = cs.alias
+				}
+				sc.deliv = append(sc.deliv, c10Deliv{sub: who.id, val: v, at: s.Stamp(), thread: s.Self().ID})
 				s.Yield()
 				if cs.fired || cs.action == "none" {
 					return
@@ -286,6 +297,23 @@ func (sc *c10Scenario) Run(s *simrt.Sim) {
 	for i := 0; i < sc.NSubs; i++ {
 		cs := newSub("main", p, false, sc.Actions[i], sc.Targets[i])
 		cs.initial = true
+	}
+	for _, cs := range append([]*c10Sub{}, sc.subs...) {
+		if !cs.resubCopy || cs.ptr == nil {
+			continue
+		}
+		// unsubscribed, then the very Subscription value is subscribed again (all before the first Publish): the new
+		// registration is a subscriber like any other
+		unsubscribe("main", cs)
+		cs2 := &c10Sub{id: len(sc.subs), action: "none", node: cs.node, pub: cs.pub, initial: true}
+		sc.subs = append(sc.subs, cs2)
+		old := cs.ptr
+		cs2.subOp = h.Do("main", "Subscribe", cs2.id, func() (interface{}, error) {
+			cs2.ptr = cs.pub.Subscribe(*old)
+			return nil, nil
+		})
+		cs.alias = cs2
+		sc.probes["unsubscribed-value-subscribed-again"]++
 	}
 	for _, cs := range sc.subs {
 		if !cs.lateBind || cs.ptr == nil {
